@@ -1,4 +1,5 @@
 from collections import deque
+from itertools import islice
 from typing import TYPE_CHECKING
 
 from pynenc.broker.base_broker import BaseBroker
@@ -64,6 +65,17 @@ class MemBroker(BaseBroker):
             return self._queue.popleft()
         except IndexError:
             return None
+
+    def peek_invocations(self, limit: int) -> list["InvocationId"]:
+        """
+        Return up to ``limit`` invocation ids from the head of the queue without removing them.
+
+        :param int limit: Maximum number of ids to return; values <= 0 return nothing.
+        :return: The first ``limit`` queued invocation ids, oldest first.
+        """
+        if limit <= 0:
+            return []
+        return list(islice(self._queue, limit))
 
     def count_invocations(self) -> int:
         """
